@@ -38,13 +38,13 @@ func runTree(c *Case) *Obs {
 	mode := num(c.Cfg["mode"])
 	isSet, _ := c.Cfg["set"].(bool)
 	calls := 0
+	// compare functions deliberately return NON-normalised results (differences, scaled): the documented
+	// contract is only the sign
 	cmp3 := func(a, b int) int {
-		if a < b {
-			return -1
-		} else if a > b {
-			return 1
+		if a == b {
+			return 0
 		}
-		return 0
+		return (a - b) * 3
 	}
 	var compare func(a, b int) int
 	var less func(a, b int) bool
@@ -54,7 +54,7 @@ func runTree(c *Case) *Obs {
 	case 1:
 		compare = func(a, b int) int { calls++; return cmp3(b, a) }
 	case 2:
-		compare = func(a, b int) int { calls++; return cmp3(floorDiv4(a), floorDiv4(b)) }
+		compare = func(a, b int) int { calls++; return floorDiv4(a) - floorDiv4(b) }
 	case 3:
 		less = func(a, b int) bool { calls++; return a < b }
 	case 4:
